@@ -363,6 +363,41 @@ class DB:
         return [f for f in self.fns.values() if f.file.startswith("/repo/src/") or f.file.startswith("/repo/include/")
                 or "/src/" in f.file or "/include/" in f.file]
 
+    def global_fn(self, qn):
+        """pseudo-function wrapping the initialiser of a namespace-scope / static variable."""
+        g = self.globals.get(qn)
+        if g is None:
+            raise AnalysisBroken("global %s not found" % qn)
+        d = {"qn": qn, "name": qn, "mangled": "global:" + qn, "file": g["file"], "line": g["line"], "nodes": g["nodes"],
+             "body": g.get("init"), "params": [], "cfg": None, "kind": "global"}
+        return Fn(d, "global", self.config)
+
+    def global_const(self, qn):
+        """evaluate a constant initialiser (nested brace lists of integer / float literals) to Python lists."""
+        f = self.global_fn(qn)
+        if f.body is None:
+            raise AnalysisBroken("global %s has no initialiser in the analysed units" % qn)
+
+        def ev(i):
+            n = f.nodes[i]
+            k = n["k"]
+            if k == "lit":
+                return n["v"]
+            if k == "initlist":
+                return [ev(x) for x in n["items"]]
+            if k == "un" and n["op"] == "-":
+                return -ev(n["sub"])
+            if k == "un" and n["op"] == "+":
+                return ev(n["sub"])
+            if k == "cast":
+                return ev(n["sub"])
+            if k == "construct" and len(n["args"]) == 1:
+                return ev(n["args"][0])
+            if k in ("defarg", "definit", "stdinitlist"):
+                return ev(n["sub"])
+            raise AnalysisBroken("initialiser of %s is not a literal table (node %s)" % (qn, k))
+        return ev(f.body)
+
     def callee_fn(self, node):
         m = node.get("cm")
         if m and m in self.fns:
